@@ -7,6 +7,7 @@
              linearizable by construction must be accepted, corrupted ones rejected)
   c07.synthsmall  random histories of ≤ 7 calls: the greedy search must agree with brute force
              (`wf` reports how many of them are linearizable)
+  c07.randstart <n>  =>  <n> <min> <max>   first values of n fresh random sequencers
   c07.race   go-run-race  =>  <ran> <race reported> <wrong final count>   (stress under `go run -race`)
   c07.facts  sequencer.go  =>  <6 bools> <maxInitialRandomSequenceNumber>
 
@@ -162,8 +163,17 @@ def c07race : Handler :=
     (fun _ => true)
     (fun _ o => if o.1 then none else some "race-detector-unavailable")
 
+/-- `c07.randstart <n> => <n> <min first value> <max first value>` of n fresh NewRandomSequencer()s.
+    No model observation (the generator is the implementation's): only the predicate applies. -/
+def c07randstart : Handler := fun inp obs =>
+  match (do let n ← Rd.nat; Rd.done; pure n : Rd Nat) inp,
+        (do let n ← Rd.nat; let a ← Rd.nat; let b ← Rd.nat; Rd.done; pure (n, a, b) : Rd (Nat × Nat × Nat)) obs with
+  | some (n, _), some ((m, a, b), _) =>
+    some { corr := n == m, pred := Pred.C07.randStartOk { n := m, minFirst := a, maxFirst := b } }
+  | _, _ => none
+
 def handlers : List (String × Handler) :=
   [("c07.run", c07run), ("c07.hist", c07hist), ("c07.facts", c07facts), ("c07.synth", c07hist),
-   ("c07.synthbad", c07histBad), ("c07.synthsmall", c07histSmall), ("c07.race", c07race),
+   ("c07.synthbad", c07histBad), ("c07.synthsmall", c07histSmall), ("c07.race", c07race), ("c07.randstart", c07randstart),
    ("c06.hist", c06hist)]
 end Rtp.Kinds.Pktz
